@@ -617,6 +617,120 @@ theorem quantizeModel_shape {env : Env} {tn : Tune} {layers : List Layer} {o : Q
         · simp at hx
         · exact ⟨j, L, hj, hn, by simpa using hinc⟩
 
+/-! ## `layer_indexes`: a layer outside the selection is handed over untouched -/
+
+theorem excludedB_of_not_included {tn : Tune} {i : Nat} (hex : ¬ Included tn i) : excludedB tn i = true := by
+  unfold Included at hex
+  unfold excludedB
+  cases hli : tn.layerIndexes with
+  | none => rw [hli] at hex; exact absurd trivial hex
+  | some ix => rw [hli] at hex; simpa using hex
+
+theorem loop2Step_excluded {env : Env} {tn : Tune} {nf : Rat} {s1 : S1} {i : Nat} {s : S2} {L : Layer}
+    (hex : ¬ Included tn i) :
+    loop2Step env tn nf s1 i s L = .ok { s with arch := s.arch ++ [L] } := by
+  unfold loop2Step
+  simp only
+  rw [if_pos (excludedB_of_not_included hex)]
+
+/-- a layer whose index is not selected appears in the handed-over list exactly as it was (no
+    `units` / `filters` rescaling either), at its own position -/
+theorem loop2_excluded {env : Env} {tn : Tune} {nf : Rat} {s1 : S1} :
+    ∀ {layers : List Layer} {i : Nat} {s s' : S2}, loop2 env tn nf s1 i s layers = .ok s' →
+      ∀ j L, layers[j]? = some L → ¬ Included tn (i + j) → s'.arch[s.arch.length + j]? = some L
+  | [], i, s, s', _ => by
+    intro j L hj; simp at hj
+  | L0 :: t, i, s, s', h => by
+    unfold loop2 at h
+    split at h
+    · cases h
+    · rename_i sm hstep
+      intro j L hj hex
+      obtain ⟨⟨L', harch, _⟩, _⟩ := loop2Step_shape hstep
+      obtain ⟨⟨ls', harch', _⟩, _⟩ := loop2_shape h
+      cases j with
+      | zero =>
+        simp only [List.getElem?_cons_zero, Option.some.injEq] at hj
+        subst hj
+        have hs := loop2Step_excluded (env := env) (nf := nf) (s1 := s1) (s := s) (L := L0)
+          (by simpa using hex)
+        rw [hs] at hstep
+        cases hstep
+        rw [harch']
+        simp
+      | succ j =>
+        have hex' : ¬ Included tn (i + 1 + j) := by
+          have : i + 1 + j = i + (j + 1) := by omega
+          rw [this]; exact hex
+        have := loop2_excluded h j L (by simpa using hj) hex'
+        rw [harch] at this
+        simpa [Nat.add_assoc, Nat.add_comm 1 j] using this
+
+theorem quantizeModel_excluded {env : Env} {tn : Tune} {layers : List Layer} {o : QmOut}
+    (h : quantizeModel env tn layers = .ok o) (j : Nat) (L : Layer) (hj : layers[j]? = some L)
+    (hex : ¬ Included tn j) : o.arch[j]? = some L := by
+  unfold quantizeModel at h
+  split at h
+  · cases h
+  · rename_i s1 h1
+    simp only at h
+    split at h
+    · cases h
+    · rename_i s2 h2
+      cases h
+      have := loop2_excluded h2 j L hj (by simpa using hex)
+      simpa using this
+
+/-! ## `layer_indexes` is read through membership only (list / tuple / range / set / array, any order,
+      duplicates): two selections with the same members give the same run -/
+
+theorem loop1_sel (env : Env) (tn : Tune) (li : Option (List Nat)) :
+    ∀ (layers : List Layer) (s : S1),
+      loop1 env { tn with layerIndexes := li } s layers = loop1 env tn s layers
+  | [], s => rfl
+  | L :: t, s => by
+    unfold loop1
+    have h1 : loop1Step env { tn with layerIndexes := li } s L = loop1Step env tn s L := rfl
+    rw [h1]
+    cases loop1Step env tn s L with
+    | error e => rfl
+    | ok s' => exact loop1_sel env tn li t s'
+
+theorem loop2Step_sel (env : Env) (tn : Tune) (li : Option (List Nat)) (nf : Rat) (s1 : S1) (i : Nat)
+    (s : S2) (L : Layer) (h : excludedB { tn with layerIndexes := li } i = excludedB tn i) :
+    loop2Step env { tn with layerIndexes := li } nf s1 i s L = loop2Step env tn nf s1 i s L := by
+  unfold loop2Step
+  rw [h]
+  rfl
+
+theorem loop2_sel (env : Env) (tn : Tune) (li : Option (List Nat)) (nf : Rat) (s1 : S1)
+    (h : ∀ i, excludedB { tn with layerIndexes := li } i = excludedB tn i) :
+    ∀ (layers : List Layer) (i : Nat) (s : S2),
+      loop2 env { tn with layerIndexes := li } nf s1 i s layers = loop2 env tn nf s1 i s layers
+  | [], i, s => rfl
+  | L :: t, i, s => by
+    unfold loop2
+    rw [loop2Step_sel env tn li nf s1 i s L (h i)]
+    cases loop2Step env tn nf s1 i s L with
+    | error e => rfl
+    | ok s' => exact loop2_sel env tn li nf s1 h t (i + 1) s'
+
+theorem quantizeModel_sel (env : Env) (tn : Tune) (ix ix' : List Nat) (layers : List Layer)
+    (hsel : tn.layerIndexes = some ix) (hmem : ∀ i, i ∈ ix ↔ i ∈ ix') :
+    quantizeModel env { tn with layerIndexes := some ix' } layers = quantizeModel env tn layers := by
+  have h : ∀ i, excludedB { tn with layerIndexes := some ix' } i = excludedB tn i := by
+    intro i
+    unfold excludedB
+    rw [hsel]
+    simp only [hmem i]
+  unfold quantizeModel
+  rw [loop1_sel]
+  cases loop1 env tn {} layers with
+  | error e => rfl
+  | ok s1 =>
+    simp only
+    rw [loop2_sel env tn (some ix') _ s1 h]
+
 /-! ## `quantize_model`: every dictionary value is within the limit of its own layer and role -/
 
 theorem isPrefixB_append (a b : List Char) : isPrefixB a (a ++ b) = true := by
